@@ -116,6 +116,38 @@ Prop_C04(S) == HasFee(S) /\ AmtKind(S.in) = "num" =>
   /\ (TheFee(S).at = "FEE" /\ ~FeeRefused(A(S), fs) /\ S.ctl.noacts.run /\ S.ctl.noacts.ok
         /\ CleanEnv(S.pre) /\ S.pre.pAct = {} /\ "orb" \notin FeeRcpts(S) => S.ok)
 
+(* C04 / C02 at full precision: amounts and fixed fees up to 2^256-1 as decimal digit sequences,  *)
+(* with exact arithmetic (BigNat.tla).  The step is an internal transfer to U from a clean state.  *)
+BigVal(f) == IF f.vc = "DIGITS" THEN f.vd ELSE BFromInt(f.v)
+BigFeeOf(AA, f) == IF f.k = "bps" THEN BDivSmall(BMulSmall(AA, f.v), 10000) ELSE BigVal(f)
+BigEntryValid(f) ==
+  /\ f.k \in {"bps", "fix"}
+  /\ (f.k = "bps" => f.vc = "OK" /\ f.v \in 1..10000)
+  /\ (f.k = "fix" => \/ (f.vc = "DIGITS" /\ BIsNat(f.vd) /\ ~BIsZero(f.vd) /\ BLeq(f.vd, BMax256))
+                     \/ (f.vc \in {"OK", "PLUS"} /\ f.v >= 1))
+  /\ ValidRcpt(f.to)
+BigTotal(AA, fs) == BSumSeq([i \in DOMAIN fs |-> BigFeeOf(AA, fs[i])], 1)
+BigRefused(AA, fs) ==
+  \/ Len(fs) > MaxFeeRecipients \/ \E i \in DOMAIN fs : ~BigEntryValid(fs[i])
+  \/ \E i \in DOMAIN fs : fs[i].k = "bps" /\ BLt(BMax256, BMulSmall(AA, fs[i].v))        \* A * bps overflows
+  \/ BLt(BMax256, BigTotal(AA, fs))                                                     \* the sum overflows
+  \/ BLeq(AA, BigTotal(AA, fs))                                                         \* total >= A
+BigCredit(AA, fs, r) == BSumSeq([i \in DOMAIN fs |-> IF RcptAcct(fs[i].to) = r THEN BigFeeOf(AA, fs[i]) ELSE BZero], 1)
+IsBig(S) == IsOrbiterPacket(S) /\ S.in.amtc = "DIGITS" /\ S.in.mk = "PAYLOAD" /\ S.hasBig /\ PidOf(S.in.fw.pid) = "INT"
+              /\ RcptAcct(S.in.fw.to) = "U" /\ ParseOK(S.in) /\ PayloadValid(S.in)
+Prop_C04big(S) == IsBig(S) /\ FeeActs(S) # {} =>
+  LET AA == S.in.amtd  fs == TheFee(S).fees IN
+  /\ ~S.panic
+  /\ (BigRefused(AA, fs) => ~S.ok)
+  /\ (~BigRefused(AA, fs) /\ BLeq(AA, BMax256) /\ ~BIsZero(AA) => S.ok)
+  /\ (S.ok => /\ BEq(S.big.F1, BigCredit(AA, fs, "F1")) /\ BEq(S.big.F2, BigCredit(AA, fs, "F2"))
+              /\ BEq(S.big.U, BSub(AA, BigTotal(AA, fs))))
+\* conservation at full precision: escrow releases A = credits + forwarded, nothing stays
+Prop_C02big(S) == IsBig(S) /\ S.ok =>
+  /\ BEq(S.big.esc, S.in.amtd)
+  /\ BEq(BAdd(BAdd(S.big.F1, S.big.F2), BAdd(S.big.U, S.big.dust)), S.in.amtd)
+  /\ BIsZero(S.big.orb) /\ ~BIsZero(S.big.U)
+
 (* C05 The outgoing bridge request carries exactly the user's route and parameters *)
 PostActionCoin(S) == IF FeeActs(S) # {} /\ ~HasSwap(S)
                      THEN [d |-> D(S), n |-> A(S) - FeeTotal(A(S), TheFee(S).fees)]
